@@ -1,4 +1,5 @@
 import ZV.Model.C18
+import ZV.Model.C18Dom
 import Mathlib.Tactic.SplitIfs
 import Mathlib.Tactic.NormNum
 /-! Lemmas for C18: header (identifier + length) round trip, primitive content round trips. -/
@@ -243,14 +244,12 @@ theorem parseTL_appendTL (perm : Bool) (t : TL) (hc : t.cls < 4) (ht : t.tag ≤
 theorem appendTL_length_pos (t : TL) : 0 < (appendTL t).length := by
   rw [appendTL_eq]; split_ifs <;> simp
 
-/-- parameters of the proved fragment: no OPTIONAL/omitempty, not both APPLICATION and PRIVATE, tag number < 2^31,
-    `explicit` comes with a tag (as `parseFieldParameters` guarantees) -/
+/-- parameters of the proved fragment: not both APPLICATION and PRIVATE, tag number < 2^31,
+    `explicit` comes with a tag (as `parseFieldParameters` guarantees), a known string kind -/
 structure Good (p : Params) : Prop where
-  notOptional : p.optional = false
   notBoth : ¬ (p.application = true ∧ p.priv = true)
   tagRange : ∀ tg, p.tag = some tg → tg ≤ 2147483647
   explicitTag : p.explicit = true → p.tag ≠ none
-  notOmitEmpty : p.omitEmpty = false
   strKind : p.stringType = 0 ∨ p.stringType = 12 ∨ p.stringType = 18 ∨ p.stringType = 19 ∨ p.stringType = 22
 
 /-- the header the decoder finally matches for `wrap p tag comp body` -/
@@ -345,8 +344,10 @@ theorem wrap_length_ge (p : Params) (tag : Nat) (comp : Bool) (body : Bytes) : b
 theorem append_isEmpty_false {a b : Bytes} (h : a.isEmpty = false) : (a ++ b).isEmpty = false := by
   cases a <;> simp_all
 
-theorem omitted_false (s : Schema) (p : Params) (v : Val) (hg : Good p) : omitted s p v = false := by
-  unfold omitted; simp [hg.notOptional, hg.notOmitEmpty]
+/-- without OPTIONAL and omitempty nothing is ever left out -/
+theorem omitted_false (s : Schema) (p : Params) (v : Val) (h1 : p.optional = false) (h2 : p.omitEmpty = false) :
+    omitted s p v = false := by
+  unfold omitted; simp [h1, h2]
 
 /-! ### content round trips -/
 
@@ -359,12 +360,6 @@ theorem all_printable_weaken (bs : Bytes) (x y : Bool) (h : bs.all (fun b => isP
     bs.all (fun b => isPrintable b true true) = true := by
   rw [List.all_eq_true] at h ⊢
   intro b hb; exact isPrintable_weaken b x y (h b hb)
-
-/-- string-value validity beyond what Marshal itself checks: an IMPLICIT-tagged string without a string kind is decoded as a
-    PrintableString; `utf8` does not make Marshal validate -/
-def strOK (p : Params) (bs : Bytes) : Bool :=
-  (if p.stringType = 12 then utf8Valid bs else true) &&
-  (if p.stringType = 0 ∧ p.tag ≠ none ∧ p.explicit = false then bs.all (fun b => isPrintable b true true) else true)
 
 
 theorem prim_roundtrip_core (s : Schema) (p : Params) (v : Val) (utag0 tag : Nat) (body enc rest : Bytes)
@@ -382,11 +377,11 @@ theorem prim_roundtrip_core (s : Schema) (p : Params) (v : Val) (utag0 tag : Nat
 
 /-- what a successful `primMake` produced -/
 theorem primMake_ok (s : Schema) (p : Params) (v : Val) (enc : Bytes) (m : Bool) (utag0 : Nat) (comp : Bool)
-    (hu : univ s = some (m, utag0, comp)) (hg : Good p) (hm : primMake s p v = .ok enc) :
+    (hu : univ s = some (m, utag0, comp)) (homit : omitted s p v = false) (hm : primMake s p v = .ok enc) :
     ∃ tag body, marshalTag p utag0 v = some tag ∧
       p.set = false ∧ makePrimBody s p v = .ok body ∧ enc = wrap p tag comp body ∧ (p.stringType ≠ 0 → utag0 = 19) := by
   unfold primMake at hm
-  rw [omitted_false _ _ _ hg, hu] at hm
+  rw [homit, hu] at hm
   simp only [Bool.false_eq_true, if_false] at hm
   by_cases h1 : p.timeType ≠ 0 ∧ utag0 ≠ 23
   · rw [if_pos h1] at hm; cases hm
@@ -414,9 +409,9 @@ theorem primMake_ok (s : Schema) (p : Params) (v : Val) (enc : Bytes) (m : Bool)
         · intro h; exact Decidable.byContradiction (fun hc => h2 ⟨h, hc⟩)
 
 theorem bool_field_roundtrip (p : Params) (b : Bool) (enc rest : Bytes) (hg : Good p)
-    (hm : primMake .bool p (.bool b) = .ok enc) (hlen : enc.length < 2147483648) :
+    (homit : omitted .bool p (.bool b) = false) (hm : primMake .bool p (.bool b) = .ok enc) (hlen : enc.length < 2147483648) :
     primField false .bool p (enc ++ rest) = .ok (.bool b, rest) := by
-  obtain ⟨tag, body, htag, hset, hb, henc, _⟩ := primMake_ok .bool p _ enc false 1 false rfl hg hm
+  obtain ⟨tag, body, htag, hset, hb, henc, _⟩ := primMake_ok .bool p _ enc false 1 false rfl homit hm
   simp only [marshalTag, show ¬ (1 = 19) by omega, if_false, Option.some.injEq] at htag
   subst htag
   simp only [makePrimBody, Res.ok.injEq] at hb
@@ -426,9 +421,9 @@ theorem bool_field_roundtrip (p : Params) (b : Bool) (enc rest : Bytes) (hg : Go
   · intro full; cases b <;> simp [parsePrim, parseBool]
 
 theorem octets_field_roundtrip (p : Params) (bs : Bytes) (enc rest : Bytes) (hg : Good p)
-    (hm : primMake .octets p (.bytes bs) = .ok enc) (hlen : enc.length < 2147483648) :
+    (homit : omitted .octets p (.bytes bs) = false) (hm : primMake .octets p (.bytes bs) = .ok enc) (hlen : enc.length < 2147483648) :
     primField false .octets p (enc ++ rest) = .ok (.bytes bs, rest) := by
-  obtain ⟨tag, body, htag, hset, hb, henc, _⟩ := primMake_ok .octets p _ enc false 4 false rfl hg hm
+  obtain ⟨tag, body, htag, hset, hb, henc, _⟩ := primMake_ok .octets p _ enc false 4 false rfl homit hm
   simp only [marshalTag, show ¬ (4 = 19) by omega, if_false, Option.some.injEq] at htag
   subst htag
   simp only [makePrimBody, Res.ok.injEq] at hb
@@ -510,9 +505,9 @@ theorem parseString_ok (utag : Nat) (bs : Bytes)
   rcases hk with h | h | h | h <;> subst h <;> simp_all
 
 theorem str_field_roundtrip (p : Params) (bs : Bytes) (enc rest : Bytes) (hg : Good p) (hok : strOK p bs = true)
-    (hm : primMake .str p (.bytes bs) = .ok enc) (hlen : enc.length < 2147483648) :
+    (homit : omitted .str p (.bytes bs) = false) (hm : primMake .str p (.bytes bs) = .ok enc) (hlen : enc.length < 2147483648) :
     primField false .str p (enc ++ rest) = .ok (.bytes bs, rest) := by
-  obtain ⟨tag, body, htag, hset, hb, henc, _⟩ := primMake_ok .str p _ enc false 19 false rfl hg hm
+  obtain ⟨tag, body, htag, hset, hb, henc, _⟩ := primMake_ok .str p _ enc false 19 false rfl homit hm
   simp only [marshalTag, if_true] at htag
   simp only [makePrimBody] at hb
   have hbody := makeString_body _ _ _ hb
@@ -716,9 +711,9 @@ theorem parseInt32_encInt64 (i : Int) (h1 : -2147483648 ≤ i) (h2 : i ≤ 21474
 
 theorem int64_field_roundtrip (p : Params) (i : Int) (enc rest : Bytes) (hg : Good p)
     (h1 : -9223372036854775808 ≤ i) (h2 : i < 9223372036854775808)
-    (hm : primMake .int64 p (.int i) = .ok enc) (hlen : enc.length < 2147483648) :
+    (homit : omitted .int64 p (.int i) = false) (hm : primMake .int64 p (.int i) = .ok enc) (hlen : enc.length < 2147483648) :
     primField false .int64 p (enc ++ rest) = .ok (.int i, rest) := by
-  obtain ⟨tag, body, htag, hset, hb, henc, _⟩ := primMake_ok .int64 p _ enc false 2 false rfl hg hm
+  obtain ⟨tag, body, htag, hset, hb, henc, _⟩ := primMake_ok .int64 p _ enc false 2 false rfl homit hm
   simp only [marshalTag, show ¬ (2 = 19) by omega, if_false, Option.some.injEq] at htag
   subst htag
   simp only [makePrimBody, Res.ok.injEq] at hb
@@ -729,9 +724,9 @@ theorem int64_field_roundtrip (p : Params) (i : Int) (enc rest : Bytes) (hg : Go
 
 theorem int32_field_roundtrip (p : Params) (i : Int) (enc rest : Bytes) (hg : Good p)
     (h1 : -2147483648 ≤ i) (h2 : i ≤ 2147483647)
-    (hm : primMake .int32 p (.int i) = .ok enc) (hlen : enc.length < 2147483648) :
+    (homit : omitted .int32 p (.int i) = false) (hm : primMake .int32 p (.int i) = .ok enc) (hlen : enc.length < 2147483648) :
     primField false .int32 p (enc ++ rest) = .ok (.int i, rest) := by
-  obtain ⟨tag, body, htag, hset, hb, henc, _⟩ := primMake_ok .int32 p _ enc false 2 false rfl hg hm
+  obtain ⟨tag, body, htag, hset, hb, henc, _⟩ := primMake_ok .int32 p _ enc false 2 false rfl homit hm
   simp only [marshalTag, show ¬ (2 = 19) by omega, if_false, Option.some.injEq] at htag
   subst htag
   simp only [makePrimBody, Res.ok.injEq] at hb
@@ -742,9 +737,9 @@ theorem int32_field_roundtrip (p : Params) (i : Int) (enc rest : Bytes) (hg : Go
 
 theorem enum_field_roundtrip (p : Params) (i : Int) (enc rest : Bytes) (hg : Good p)
     (h1 : -2147483648 ≤ i) (h2 : i ≤ 2147483647)
-    (hm : primMake .enum p (.int i) = .ok enc) (hlen : enc.length < 2147483648) :
+    (homit : omitted .enum p (.int i) = false) (hm : primMake .enum p (.int i) = .ok enc) (hlen : enc.length < 2147483648) :
     primField false .enum p (enc ++ rest) = .ok (.int i, rest) := by
-  obtain ⟨tag, body, htag, hset, hb, henc, _⟩ := primMake_ok .enum p _ enc false 10 false rfl hg hm
+  obtain ⟨tag, body, htag, hset, hb, henc, _⟩ := primMake_ok .enum p _ enc false 10 false rfl homit hm
   simp only [marshalTag, show ¬ (10 = 19) by omega, if_false, Option.some.injEq] at htag
   subst htag
   simp only [makePrimBody, Res.ok.injEq] at hb
